@@ -31,13 +31,18 @@ ASSUMPTIONS = ['cookie names are RFC 6265 tokens accepted by http.cookies; value
 SUBST = list('Aa0+/=!?"\\;, \0') + ['%', 'Z']
 SUBST_FULL = [chr(c) for c in range(32, 127)] + ['\0', '\t', '\x7f', '\xe9']      # every printable ASCII symbol and a few others
 NAMES = ['s', 'session', 'a', 'id_1', 'X-y', 'tok.en', 'n~m', 'k!', 'UPPER', 'a1b2']
-SECRETS = ['k', 'secret', 'sé crèt', '日本', 'with space', 'a' * 64, '!?', '0', '\U0001f511key', 'p@ss;word']
+SECRETS = ['k', 'secret', 'sé crèt', '日本', 'with space', 'a' * 64, '!?', '0', '\U0001f511key', 'p@ss;word',
+           # long secrets that differ only after the 64th / 128th byte (a shared pepper plus a per-tenant suffix)
+           'pepper-' * 9 + 'Ta', 'pepper-' * 9 + 'Tb', 'K' * 64 + '1', 'K' * 64 + '2', 'é' * 32 + 'x', 'é' * 32 + 'y', 'L' * 200 + 'tenant-1', 'L' * 200 + 'tenant-2']
 PLAIN = ['/search?q=caf%C3%A9&page=2', '/wiki/%E4%BD%A0%E5%A5%BD', 'name%2Cdate', '100%25', '%', '%%', '%zz', '%41', 'a%20b', '%e9', 'v', 'hello', 'a b', 'a;b', 'a,b', 'a=b', '"quoted"', 'back\\slash', 'tab\there', 'new\nline', 'cr\rlf', 'é', 'ÿ', 'naïve café',
          'ß=ü;ö', '\x7f', '\x01', ' lead', 'trail ', '!notsigned?x', '!?', '?', 'a"b', "it's", '100%', 'x' * 300, '\\', '\\"', '0',
          'Ã©', '€', '日本', 'ключ', '\U0001f600', 'mixé日']
 OBJECTS = [1, 'text', None, True, 3.5, ('a', 1), ['l', ['nested', {'k': (1, 2)}]], {'user': 'é', 'roles': ['a', 'b'], 'n': 10**20},
            b'\x00bytes\xff', '', 'x' * 500, {'日本': '語'}, frozenset({1, 2}), [], {}]
 SENT = object()
+import datetime as _dt
+COOKIE_OPTIONS = [{}, {}, {'path': '/acc'}, {'max_age': 3600}, {'max_age': _dt.timedelta(hours=1)}, {'expires': 0}, {'expires': _dt.datetime(2031, 5, 4, 3, 2, 1)}, {'expires': 1924992000.5},
+                  {'httponly': True, 'secure': True}, {'domain': 'example.com', 'path': '/acc'}, {'samesite': 'lax'}, {'max_age': _dt.timedelta(days=2, seconds=5), 'path': '/acc', 'httponly': True}]
 
 
 PRIORS = ['none', 'none', 'set_before', 'deleted_before', 'set_then_deleted', 'other_name_before', 'failed_reset_after', 'set_and_looked_at_before', 'deleted_and_looked_at_before']
@@ -143,8 +148,8 @@ class Mon:
         self.spy = PickleSpy.install_global()      # the name `pickle` inside ombott resolves to the patched module
         self.legit = set()
 
-    def sign(self, name, value, secret, kind='Response', prior='none', status=200):
-        sc = set_and_emit(kind, name, value, secret, prior=prior, status=status)
+    def sign(self, name, value, secret, kind='Response', prior='none', status=200, **opts):
+        sc = set_and_emit(kind, name, value, secret, prior=prior, status=status, **opts)
         self.legit.add(pickle.dumps((name, value), -1))
         return sc
 
@@ -225,10 +230,15 @@ def roundtrip_unit(ctx, unit):
                 kind = rng.choice(['Response', 'HTTPResponse', 'copied'])
                 if kind == 'copied':
                     ctx.count('emitted_by_a_copied_response')
+                # the attributes a cookie is usually sent with travel beside the value and change nothing about it
+                opts = rng.choice(COOKIE_OPTIONS)
+                if opts:
+                    ctx.count('set_with_cookie_attributes')
+                    wit['unit']['options'] = repr(opts)
                 if signed:
-                    sc = mon.sign(name, value, secret, kind, prior, status)
+                    sc = mon.sign(name, value, secret, kind, prior, status, **opts)
                 else:
-                    sc = set_and_emit(kind, name, value, prior=prior, status=status)
+                    sc = set_and_emit(kind, name, value, prior=prior, status=status, **opts)
             else:
                 cur.update(name=name, value=value, secret=secret, prior=prior, status=status)
                 if signed:
